@@ -172,4 +172,8 @@ NoLeak == pc = "done" => \A f \in Files : \A i \in 1..NOf(f) :
              LET r == <<f, i - 1>>  k == scores[f][i][1] IN
              /\ r \in testIdx[f][k] /\ scores[f][i][2] = r
              /\ SpecR(r) \notin SpecsOf(got[k])
+\* C05: the outcome is a function of the input (rows, spectra, hash order = seed) only: chunk sizes, worker count and
+\* completion orders do not appear in it
+OutcomeIsF == pc = "done" => \A f \in Files : \A i \in 1..NOf(f) :
+                 scores[f][i] = <<CHOOSE k \in 1..Folds : <<f, i - 1>> \in FoldsOfFile(f)[k], <<f, i - 1>>>>
 =============================================================================
